@@ -39,7 +39,14 @@ INTERPRETATION (decisions):
    so "give all rows finite distinct positions" fails: it is reported as a violation with a
    signature naming the assert and the class of input.  (The Lean theorem deliberately does not
    claim totality; the three classes found on the unchanged tree are in known_findings.json.)
- * The engine-level clause ("manualSort ... distinct after any history") is in engine_level().
+ * The engine-level clause ("manualSort ... distinct after any history") is in engine_moves(): rows are ADDED and
+   REPOSITIONED (UpdateRecord / BulkUpdateRecord of manualSort, of a user PositionNumber column and of
+   _grist_Views_section_field.parentPos on EXISTING rows) through user actions in neighbourhoods crowded enough that
+   relabeling adjusts other existing rows; clauses E1-E5 (see "ENGINE LEVEL" below) are evaluated by the direct oracle
+   judge_positions on the engine's tables after every action.  The Lean side covers prepare_inserts only: the engine tie
+   compares the table with Lean prepareInserts at Float + an index-to-row glue written in Python (not proved, not Lean).
+   Finding on the unchanged tree (known_findings.json, TRIM_SIGNATURE): a moved row whose computed position equals its old
+   position is trimmed from the update while its own relabeling adjustment is applied, so it is not moved.
 """
 import math
 import os
@@ -48,7 +55,9 @@ import sys
 import traceback
 
 NONTRIVIAL_RULE = ("non-trivial = the real run relabelled a crowded neighbourhood (_adjust_range), renumbered everything "
-                   "(_adjust_all) or raised; distinct by (existing bits, requested bits)")
+                   "(_adjust_all) or raised; distinct by (existing bits, requested bits); engine level: an add / reposition "
+                   "through a user action on which relabeling ran or rows other than the subjects changed position; distinct "
+                   "by (table, column, action kind, position bits before, request bits, subjects' old position bits)")
 
 
 def bits(x):
@@ -639,6 +648,739 @@ def primitives(ck, ob):
 
 
 # ---------------------------------------------------------------------------------------------
+# ENGINE LEVEL: rows ADDED and REPOSITIONED through user actions (AddRecord / BulkAddRecord / UpdateRecord /
+# BulkUpdateRecord / ReplaceTableData of manualSort, of a user PositionNumber column and of the metadata column
+# _grist_Views_section_field.parentPos), i.e. column.PositionColumn.prepare_new_values + Engine.convert_action_values
+# + the adjustment doc actions: the GLUE between relabeling.prepare_inserts' result (indices into the sorted neighbour
+# list) and the rows of the table.  Histories are generated adaptively (each step aims at the CURRENT position of a row)
+# so that float neighbourhoods get crowded and relabeling has to adjust other existing rows while rows are moved.
+#
+# Interpretation of the property for one action on one position column (before -> after, both {row: position}):
+#   subjects  = the rows the action adds / repositions, with request q_j = float(value), None / "" / column not
+#               named in an add -> +inf (PositionNumber.do_convert);  untouched = every other row.
+#   E1  every position after the action is a finite float and all are pairwise distinct;
+#   E2  untouched rows keep their relative order (they may be relabelled);
+#   E3  each subject sits where requested: after every untouched row whose OLD position is < q_j and before every
+#       untouched row whose OLD position is >= q_j (a moved row's own old position does not matter);
+#   E4  subjects of one action are ordered by (q_j, j);
+#   E5  a column the action does not name (update), another table's column, and every column on a REJECTED action
+#       keep exactly their positions; a removal removes exactly the removed rows; an undo restores the positions.
+# The judge below (judge_step) evaluates E1-E5 on the real engine's tables, with no reference to relabeling.py
+# or to the Lean model.
+
+def _q(v):
+  return INF if v is None or v == "" else float(v)
+
+
+def _finite_float(v):
+  return isinstance(v, float) and math.isfinite(v)
+
+
+def judge_positions(kind, before, after, subjects, reqs, relabelled):
+  """E1-E4 for one column.  kind = 'added' / 'repositioned'.  -> None or (signature, detail)."""
+  tail = " [relabeling adjusted the neighbourhood]" if relabelled else " [no relabeling]"
+  for r in sorted(after):
+    if not _finite_float(after[r]):
+      return ("engine: a row %s through a user action leaves a non-finite or non-float position" % kind + tail,
+              "row %r -> %r" % (r, after[r]))
+  seen = {}
+  for r in sorted(after):
+    if after[r] in seen:
+      return ("engine: two rows hold the same position after a row is %s through a user action" % kind + tail,
+              "rows %r and %r -> %r" % (seen[after[r]], r, after[r]))
+    seen[after[r]] = r
+  subj = set(subjects)
+  untouched = [r for r in before if r not in subj]
+  old_order = sorted(untouched, key=lambda r: (before[r], r))
+  new_order = sorted(untouched, key=lambda r: (after[r], r))
+  if old_order != new_order:
+    k = [i for i in range(len(old_order)) if old_order[i] != new_order[i]][0]
+    return ("engine: untouched rows change their relative order when a row is %s through a user action" % kind + tail,
+            "first difference at rank %d: before ...%r, after ...%r" % (k, old_order[max(0, k - 2):k + 3], new_order[max(0, k - 2):k + 3]))
+  for j, (s, q) in enumerate(zip(subjects, reqs)):
+    for i in untouched:
+      if before[i] < q:
+        if not after[i] < after[s]:
+          return ("engine: %s row does not sit where requested (it is before an untouched row with a smaller old position)" % kind + tail,
+                  "subject row %r (request %r -> %r) vs untouched row %r (%r -> %r)" % (s, q, after[s], i, before[i], after[i]))
+      elif not after[s] < after[i]:
+        return ("engine: %s row does not sit where requested (it is after an untouched row with an equal or larger old position)" % kind + tail,
+                "subject row %r (request %r -> %r) vs untouched row %r (%r -> %r)" % (s, q, after[s], i, before[i], after[i]))
+  order = sorted(range(len(subjects)), key=lambda j: (reqs[j], j))
+  for x, y in zip(order, order[1:]):
+    if not after[subjects[x]] < after[subjects[y]]:
+      return ("engine: rows %s in one action do not keep the order of their requested positions" % kind + tail,
+              "rows %r (request %r) and %r (request %r) -> %r, %r" % (subjects[x], reqs[x], subjects[y], reqs[y],
+                                                                       after[subjects[x]], after[subjects[y]]))
+  return None
+
+
+class MoveRun(object):
+  """One engine document driven by abstract, JSON-able steps (kept for replay):
+       {"op":"table","table":T,"pos_cols":[...]}                 AddTable T [a:Int] + user PositionNumber columns
+       {"op":"watch","table":T,"col":c}                           also judge this (metadata) position column
+       {"op":"add","table":T,"n":k,"cols":{c:[v..]},"single":b}   AddRecord / BulkAddRecord with new row ids
+       {"op":"move","table":T,"rows":[..],"cols":{c:[v..]},"single":b}   UpdateRecord / BulkUpdateRecord of existing rows
+       {"op":"replace","table":T,"n":k,"cols":{c:[v..]}}          ReplaceTableData
+       {"op":"remove","table":T,"rows":[..]}   {"op":"undo"}      RemoveRecord(s) / ApplyUndoActions of the last action
+       {"op":"seed","table":T,"col":c,"rows":[..],"vals":[..]}    ApplyDocActions: positions set directly (a loaded state)
+  """
+  MAX_TIES = 100000
+  N_RUNS = [0]
+
+  def __init__(self, ob, out, family):
+    MoveRun.N_RUNS[0] += 1
+    self.uid = MoveRun.N_RUNS[0]
+    from gx import engine_driver as ed
+    self.ed = ed
+    self.ob = ob
+    self.out = out
+    self.family = family
+    self.doc = ed.Doc()
+    self.steps = []
+    self.watch = []
+    self.last_undo = None
+    self.dead = False          # a violation was found: stop judging (later states are consequences)
+    self.ties = []
+    self.nseq = 0
+
+  def count(self, k, d=1):
+    self.out["counts"][k] = self.out["counts"].get(k, 0) + d
+
+  # ---- observation
+  def state(self, table, col):
+    td = self.doc.engine.fetch_table(table)
+    return dict(zip(td.row_ids, td.columns[col]))
+
+  def states(self):
+    out = {}
+    for t in sorted(set(t for (t, _) in self.watch)):
+      td = self.doc.engine.fetch_table(t)
+      for (t2, c) in self.watch:
+        if t2 == t:
+          out[(t, c)] = dict(zip(td.row_ids, td.columns[c]))
+    return out
+
+  def order(self, table, col="manualSort"):
+    st = self.state(table, col)
+    return sorted(st, key=lambda r: (st[r], r)), st
+
+  # ---- one step
+  def to_user_action(self, st):
+    op = st["op"]
+    if op == "table":
+      return ["AddTable", st["table"], [{"id": "a", "type": "Int", "isFormula": False, "formula": ""}] +
+              [{"id": c, "type": "PositionNumber", "isFormula": False, "formula": ""} for c in st["pos_cols"]]]
+    if op == "add":
+      self.nseq += 1
+      if st.get("single") and st["n"] == 1:
+        return ["AddRecord", st["table"], None, dict({"a": self.nseq}, **{c: v[0] for c, v in st["cols"].items()})]
+      return ["BulkAddRecord", st["table"], [None] * st["n"],
+              dict({"a": [self.nseq] * st["n"]}, **{c: list(v) for c, v in st["cols"].items()})]
+    if op == "replace":
+      return ["ReplaceTableData", st["table"], [None] * st["n"],
+              dict({"a": [7] * st["n"]}, **{c: list(v) for c, v in st["cols"].items()})]
+    if op == "move":
+      if st.get("single") and len(st["rows"]) == 1:
+        return ["UpdateRecord", st["table"], st["rows"][0], {c: v[0] for c, v in st["cols"].items()}]
+      return ["BulkUpdateRecord", st["table"], list(st["rows"]), {c: list(v) for c, v in st["cols"].items()}]
+    if op == "remove":
+      if len(st["rows"]) == 1:
+        return ["RemoveRecord", st["table"], st["rows"][0]]
+      return ["BulkRemoveRecord", st["table"], list(st["rows"])]
+    if op == "seed":
+      return ["ApplyDocActions", [["BulkUpdateRecord", st["table"], list(st["rows"]), {st["col"]: list(st["vals"])}]]]
+    if op == "undo":
+      return ["ApplyUndoActions", self.last_undo[0]]
+    raise ValueError(op)
+
+  def find(self, sig, detail):
+    self.dead = True
+    self.out["violations"].append((sig, detail, {"engine_steps": list(self.steps), "family": self.family}))
+
+  def step(self, st):
+    """Run one abstract step on the real engine and judge it.  Returns the BundleResult (or None when dead)."""
+    if self.dead:
+      return None
+    op = st["op"]
+    if op == "watch":
+      self.steps.append(st)
+      self.watch.append((st["table"], st["col"]))
+      return None
+    if op == "undo" and self.last_undo is None:
+      return None
+    self.steps.append(st)
+    before = self.states()
+    ua = self.to_user_action(st)
+    self.ob.reset()
+    res = self.doc.apply([ua], record=False)
+    relabels, renumbers = self.ob.relabels, self.ob.renumbers
+    if op == "table":
+      if not res.ok:
+        raise_infra("engine scenario: AddTable rejected: %r" % (res.error,))
+      self.watch.append((st["table"], "manualSort"))
+      for c in st["pos_cols"]:
+        self.watch.append((st["table"], c))
+      return res
+    after = self.states()
+    self.out["evaluated"] += 1
+    self.count("engine_actions")
+    self.count("engine_actions_" + op)
+    self.judge(st, res, before, after, relabels, renumbers)
+    if res.ok and op in ("add", "move", "replace", "remove"):
+      self.last_undo = (res.raw_undo, before)
+    else:
+      self.last_undo = None
+    return res
+
+  def judge(self, st, res, before, after, relabels, renumbers):
+    op = st["op"]
+    table = st.get("table")
+    # E1 on every watched column, whatever happened
+    for key in self.watch:
+      a = after[key]
+      if not all(_finite_float(v) for v in a.values()) or len(set(a.values())) != len(a):
+        if op in ("add", "move", "replace") and res.ok and key[0] == table:
+          continue     # reported with the precise clause below
+        return self.find("engine: position column holds non-finite or duplicate values after %s" % op,
+                         "%s.%s = %r" % (key[0], key[1], sorted(a.items())[:12]))
+    if not res.ok:
+      self.count("engine_actions_rejected")
+      for key in self.watch:
+        if after[key] != before[key]:
+          return self.find("engine: a rejected action changed row positions", "%s.%s after %s: %r" % (key[0], key[1], op, res.error))
+      return self.judge_rejected(st, res, before)
+    if op == "seed":
+      want = dict(before[(table, st["col"])])
+      want.update(zip(st["rows"], st["vals"]))
+      if after[(table, st["col"])] != want:
+        raise_infra("engine scenario: ApplyDocActions did not set the seeded positions")
+      return None
+    if op == "undo":
+      for key in self.watch:
+        if after[key] != self.last_undo[1][key]:
+          return self.find("engine: undo of a position-changing action does not restore the positions",
+                           "%s.%s" % key)
+      self.count("engine_undos_judged")
+      return None
+    subjects = None
+    cand, want_tie = [], False
+    if op == "add":
+      ret = res.ret[0]
+      subjects = [ret] if isinstance(ret, int) else list(ret)
+    elif op == "replace":
+      subjects = list(range(1, st["n"] + 1))
+    elif op == "move":
+      subjects = list(st["rows"])
+    for key in self.watch:
+      b, a = before[key], after[key]
+      t, c = key
+      if t != table or (op == "move" and c not in st["cols"]):
+        if a != b:
+          return self.find("engine: positions of a column the action does not name changed", "%s.%s after %s" % (t, c, op))
+        continue
+      if op == "remove":
+        want = {r: v for r, v in b.items() if r not in set(st["rows"])}
+        if a != want:
+          return self.find("engine: removing rows changed the positions of other rows", "%s.%s" % key)
+        continue
+      if op == "replace":
+        b = {}     # every old row goes away; all rows of the new data are subjects
+      if op in ("add", "replace") and (set(a) != set(b) | set(subjects) or set(b) & set(subjects) or
+                                       len(set(subjects)) != len(subjects)):
+        raise_infra("engine scenario: %s did not create exactly the returned rows %r" % (op, subjects))
+      if op == "move" and set(a) != set(b):
+        return self.find("engine: an update of positions changed the set of rows", "%s.%s" % key)
+      reqs = [_q(v) for v in st["cols"][c]] if c in st["cols"] else [INF] * len(subjects)
+      kind = "repositioned" if op == "move" else "added"
+      touched = [r for r in b if r not in set(subjects) and a[r] != b[r]]
+      relab = bool(relabels or renumbers)
+      self.count("engine_%s_judged" % ("moves" if op == "move" else "adds"))
+      if relab:
+        self.count("engine_%s_with_relabeling" % ("moves" if op == "move" else "adds"))
+      if touched:
+        self.count("engine_%s_adjusting_untouched_rows" % ("moves" if op == "move" else "adds"))
+        self.count("engine_untouched_rows_adjusted", len(touched))
+        if op == "move":
+          firstadj = min(before[key][r] for r in touched)
+          lastadj = max(before[key][r] for r in touched)
+          if any(b[s] < lastadj for s in subjects):
+            self.count("engine_moves_with_moved_row_sorting_before_an_adjusted_row")
+          if any(b[s] > firstadj for s in subjects):
+            self.count("engine_moves_with_moved_row_sorting_after_an_adjusted_row")
+          if any(a[s] != b[s] and firstadj <= b[s] <= lastadj for s in subjects):
+            self.count("engine_moves_with_moved_row_inside_the_adjusted_run")
+          if len(subjects) > 1:
+            self.count("engine_bulk_moves_adjusting_untouched_rows")
+          if c != "manualSort":
+            self.count("engine_moves_adjusting_untouched_rows_in_%s" % c)
+      bad = judge_positions(kind, b, a, subjects, reqs, relab)
+      if bad and op == "move" and self.dropped_update(key, b, a, subjects, reqs, relab):
+        bad = None
+      if bad:
+        return self.find(bad[0], "%s.%s %s rows %r requests %r (%d rows before; %d untouched rows relabelled): %s" % (
+          t, c, op, subjects[:6], reqs[:6], len(b), len(touched), bad[1]))
+      if touched or relab:
+        self.out["nontrivial"].append(["engine", t, c, op, [bits(x) for x in sorted(before[key].values())],
+                                       [bits(x) for x in reqs], [bits(before[key][s]) for s in subjects if s in before[key]]])
+        if op == "move" and touched and len(b) <= 10 and self.out.get("engine_samples", 0) < 1:
+          self.out["engine_samples"] = self.out.get("engine_samples", 0) + 1
+          self.out["samples"].append({"engine_move": st, "column": "%s.%s" % key,
+                                      "before": sorted(b.items()), "after": sorted(a.items())})
+      # the model tie: prepare_inserts (Lean, at Float) on (sorted old positions, requests) + the glue as the
+      # harness understands it (adjustment index -> row of the list sorted by old position; subjects last)
+      if touched or relab or len(self.steps) % 3 == 0:
+        want_tie = True
+      bb = before[key] if not (op == "replace" and c not in st["cols"]) else {}   # ReplaceTableData: ignore_data for unnamed columns
+      rows_sorted = sorted(bb, key=lambda r: (bb[r], r))
+      cand.append({"rows": rows_sorted, "existing": [bb[r] for r in rows_sorted], "reqs": reqs,
+                   "subjects": subjects, "after": a, "replace": op == "replace", "move": op == "move",
+                   "where": "%s.%s %s" % (t, c, op), "nsteps": len(self.steps), "group": (self.uid, len(self.steps))})
+    if want_tie and len(self.ties) < self.MAX_TIES:
+      self.ties.extend(cand)
+    return None
+
+  def dropped_update(self, key, b, a, subjects, reqs, relab):
+    """KNOWN FINDING (unchanged tree), recognised by its specific condition only: useractions.doBulkUpdateRecord
+    trims 'unchanged' cells (trim_update_action) BEFORE it applies the relabeling adjustments; when the position
+    computed for a moved row happens to EQUAL that row's position before the action (possible only if the row
+    itself is relabelled), its update is dropped and the row stays in its relabelled OLD slot.  Condition checked:
+    prepare_inserts on (sorted positions before, requests) returns for subject j exactly b[s_j], adjusts s_j, the
+    table holds that adjusted value for s_j, and with those rows put at their computed positions E1-E4 hold."""
+    ex_rows = sorted(b, key=lambda r: (b[r], r))
+    pure = real_prepare(self.ob, [b[r] for r in ex_rows], reqs)
+    if "error" in pure:
+      return False
+    adjd = {ex_rows[i]: k for (i, k) in pure["adj"]}
+    dropped = [j for j, s_ in enumerate(subjects)
+               if pure["new"][j] == b[s_] and s_ in adjd and a[s_] == adjd[s_]]
+    if not dropped:
+      return False
+    a2 = dict(a)
+    for j in dropped:
+      a2[subjects[j]] = pure["new"][j]
+    if judge_positions("repositioned", b, a2, subjects, reqs, relab) is not None:
+      return False
+    self.count("engine_moves_dropped_by_trim_after_relabeling")
+    s_ = subjects[dropped[0]]
+    self.out["violations"].append((
+      TRIM_SIGNATURE,
+      "%s.%s: row %r requested at %r; computed position %r equals its old position, the update is trimmed and the row "
+      "keeps its relabelled old slot %r" % (key[0], key[1], s_, reqs[dropped[0]], b[s_], a[s_]),
+      {"engine_steps": list(self.steps), "family": self.family}))
+    return True
+
+  def judge_rejected(self, st, res, before):
+    """The engine rejected an action.  Only the recorded totality findings of relabeling.prepare_inserts are
+    acceptable, and only if the SAME exception is raised by prepare_inserts itself on (the column's sorted
+    positions before, the requests) and exception_signature finds the recorded condition there."""
+    op = st["op"]
+    if op not in ("add", "move", "replace"):
+      return self.find("engine: %s of rows raises %s" % (op, res.error[0]), "%r" % (res.error,))
+    n = st["n"] if op in ("add", "replace") else len(st["rows"])
+    for (t, c) in self.watch:
+      if t != st["table"] or (op == "move" and c not in st["cols"]):
+        continue
+      b = before[(t, c)]
+      reqs = [_q(v) for v in st["cols"][c]] if c in st["cols"] else [INF] * n
+      ex = sorted(b.values()) if not (op == "replace" and c not in st["cols"]) else []
+      pure = real_prepare(self.ob, ex, reqs)
+      if "error" in pure and pure["error"].split(":")[0] == res.error[0]:
+        sig, detail = exception_signature(ex, reqs, pure)
+        self.count("engine_rejections_reproduced_by_prepare_inserts_alone")
+        self.out["violations"].append((sig, "through the engine (%s on %s.%s): %s" % (op, t, c, detail),
+                                       {"existing": [x.hex() for x in ex], "keys": [x.hex() for x in reqs]}))
+        return None
+    return self.find("engine: a row %s through a user action is rejected with %s although relabeling.prepare_inserts "
+                     "accepts the same positions and requests" % ("repositioned" if op == "move" else "added", res.error[0]),
+                     "%r" % (res.error,))
+
+
+TRIM_SIGNATURE = ("engine: repositioned row stays in its relabelled old slot (the position computed for it equals its position "
+                  "before the action, so trim_update_action drops its update while the adjustment of that same row is applied)")
+
+
+def raise_infra(msg):
+  from gx import common
+  raise common.Infra(msg)
+
+
+# ---- scenario families (adaptive generators)
+
+def _aim(rng, st, target, order):
+  """A requested position aimed at row `target` (mostly: exactly its current position = 'right before it')."""
+  c = rng.random()
+  p = st[target]
+  if c < 0.62:
+    return p
+  if c < 0.72:
+    return nf(p)                     # right after the target (before its successor)
+  if c < 0.78:
+    return pf(p)
+  if c < 0.84:
+    return st[rng.choice(order)]     # before some other row
+  if c < 0.88:
+    i = order.index(target)
+    return (p + st[order[i - 1]]) / 2 if i > 0 else p / 2
+  if c < 0.92:
+    return None                      # to the end
+  if c < 0.95:
+    return rng.choice([0, -1.5, 0.0, ""])
+  if c < 0.97:
+    return int(p) if abs(p) < 2 ** 50 else p      # an int request
+  return rng.choice([1e300, 2.0 ** 40, p * 2, p + 1])
+
+
+def _pick_movers(rng, order, target, k):
+  """Rows to reposition: from the front (they sort BEFORE whatever gets adjusted), the back, around the target."""
+  out = []
+  ti = order.index(target)
+  for _ in range(k):
+    c = rng.random()
+    if c < 0.35:
+      r = order[rng.randrange(0, min(3, len(order)))]
+    elif c < 0.5:
+      r = order[-1 - rng.randrange(0, min(3, len(order)))]
+    elif c < 0.62:
+      r = order[max(0, ti - rng.randint(1, 3))]
+    elif c < 0.72:
+      r = order[min(len(order) - 1, ti + rng.randint(1, 3))]
+    elif c < 0.77:
+      r = target
+    else:
+      r = rng.choice(order)
+    if r not in out:
+      out.append(r)
+  return out
+
+
+def fam_crowd(rng, run, nsteps, pos_cols=(), p_move=0.45, seed_chain=False, cap=160):
+  """Rows are added and moved again and again right before (or after) the same row, so the float gap there is
+  used up and relabeling must adjust existing rows - while rows from anywhere in the order are moved in."""
+  T = "T"
+  run.step({"op": "table", "table": T, "pos_cols": list(pos_cols)})
+  n0 = rng.randint(3, 9)
+  run.step({"op": "add", "table": T, "n": n0, "cols": {}})
+  cols = ["manualSort"] + list(pos_cols)
+  if seed_chain:
+    # a loaded state whose positions are (nearly) adjacent floats: every insertion there relabels at once
+    for c in cols:
+      if rng.random() < 0.8:
+        order, st = run.order(T, c)
+        base = rng.choice([1.0, 3.0, 0.1, 1.2, 2.4, 17.0, 123456.789, 2.0 ** 40, 2.0 ** 49 - 4, 1e15])
+        k0 = rng.randrange(0, max(1, len(order) - 2))
+        vals, x = [], base
+        for i in range(len(order)):
+          vals.append(x)
+          x = nf(x, rng.choice([1, 1, 1, 2, 3])) if k0 <= i < k0 + rng.randint(2, 6) else x + rng.choice([1.0, 0.5, base / 8])
+          if x <= vals[-1]:
+            x = nf(vals[-1])
+        run.step({"op": "seed", "table": T, "col": c, "rows": order, "vals": vals})
+  order, st = run.order(T)
+  target = {c: rng.choice(order) for c in cols}
+  for _ in range(nsteps):
+    if run.dead:
+      return
+    c = rng.choice(cols) if rng.random() < 0.8 else None        # None: several columns at once
+    use = [c] if c else [x for x in cols if rng.random() < 0.7] or cols[:1]
+    x = rng.random()
+    info = {u: run.order(T, u) for u in use}
+    order = info[use[0]][0]
+    if len(order) < 3:
+      run.step({"op": "add", "table": T, "n": 3, "cols": {}})
+      continue
+    if rng.random() < 0.03:
+      for u in use:
+        target[u] = rng.choice(order)
+    for u in cols:
+      if target[u] not in order:
+        target[u] = rng.choice(order)
+    if x < p_move:
+      k = rng.choice([1, 1, 1, 1, 2, 2, 3, 5])
+      rows = _pick_movers(rng, order, target[use[0]], k)
+      same = rng.random() < 0.7
+      colv = {}
+      for u in use:
+        o, s = info[u]
+        q = _aim(rng, s, target[u], o)
+        colv[u] = [q if same else _aim(rng, s, target[u], o) for _ in rows]
+      run.step({"op": "move", "table": T, "rows": rows, "cols": colv, "single": rng.random() < 0.7})
+    elif x < 0.93:
+      k = rng.choice([1, 1, 1, 1, 2, 3, 6])
+      colv = {}
+      for u in use:
+        o, s = info[u]
+        q = _aim(rng, s, target[u], o)
+        colv[u] = [q if rng.random() < 0.8 else _aim(rng, s, target[u], o) for _ in range(k)]
+      if rng.random() < 0.1:
+        colv = {}
+      run.step({"op": "add", "table": T, "n": k, "cols": colv, "single": rng.random() < 0.7})
+    elif x < 0.96 and len(order) > 4:
+      rows = [r for r in rng.sample(order, rng.choice([1, 1, 2])) if r not in target.values()]
+      if rows:
+        run.step({"op": "remove", "table": T, "rows": rows})
+    elif x < 0.985:
+      run.step({"op": "undo"})
+    else:
+      k = rng.randint(1, 6)
+      run.step({"op": "replace", "table": T, "n": k,
+                "cols": {"manualSort": [rng.choice([1, 1, 2, None, 0.5, 3]) for _ in range(k)]} if rng.random() < 0.7 else {}})
+      order, st = run.order(T)
+      target = {c2: rng.choice(order) for c2 in cols}
+    if len(order) > cap:
+      o, s = run.order(T)
+      keep = set(target.values())
+      rows = [r for r in o if r not in keep][: len(o) // 2]
+      run.step({"op": "remove", "table": T, "rows": rows})
+
+
+def _dense_vals(rng, n):
+  """n strictly increasing finite positions containing a run of (nearly) adjacent floats; -> (vals, run indices)"""
+  base = rng.choice([1.0, 3.0, 0.1, 1.2, 2.4, 17.0, 123456.789, 2.0 ** 40, 2.0 ** 49 - 4, 1e15, 0.5, 1e-3, 1e-300])
+  k0 = rng.randrange(0, max(1, n - 1))
+  klen = rng.randint(2, max(2, min(7, n - k0)))
+  gap = rng.choice([1, 1, 1, 2, 3, 8])
+  vals, x = [], base
+  for i in range(n):
+    vals.append(x)
+    x = nf(x, rng.randint(1, gap)) if k0 <= i < k0 + klen - 1 else x + rng.choice([1.0, 0.5, base / 8, base])
+    if x <= vals[-1]:
+      x = nf(vals[-1])
+  return vals, list(range(k0, min(n, k0 + klen)))
+
+
+def fam_dense(rng, run, nrounds, pos_cols=()):
+  """Loaded states whose positions contain a run of adjacent floats (set directly, as a stored document would hold
+  them), then a few adds / moves aimed INTO the run, the moved rows taken from anywhere in the order: every such
+  action has to relabel existing rows."""
+  T = "T"
+  run.step({"op": "table", "table": T, "pos_cols": list(pos_cols)})
+  run.step({"op": "add", "table": T, "n": rng.randint(4, 14), "cols": {}})
+  cols = ["manualSort"] + list(pos_cols)
+  for _ in range(nrounds):
+    if run.dead:
+      return
+    c = rng.choice(cols)
+    order, st = run.order(T, c)
+    if len(order) > 40:
+      run.step({"op": "remove", "table": T, "rows": rng.sample(order, len(order) - 8)})
+      order, st = run.order(T, c)
+    vals, dense = _dense_vals(rng, len(order))
+    if rng.random() < 0.3:
+      rng.shuffle(order)          # the loaded order need not be the previous one
+    run.step({"op": "seed", "table": T, "col": c, "rows": order, "vals": vals})
+    for _ in range(rng.randint(1, 3)):
+      if run.dead:
+        return
+      order, st = run.order(T, c)
+      # aim at a row of the dense run (tracked by rank: relabeling keeps ranks of untouched rows)
+      tr = order[min(len(order) - 1, rng.choice(dense))]
+      q = rng.choice([st[tr], st[tr], nf(st[tr]), pf(st[tr])])
+      if rng.random() < 0.65:
+        k = rng.choice([1, 1, 1, 2, 3])
+        rows = []
+        for _ in range(k):
+          x = rng.random()
+          r = order[0] if x < 0.3 else order[-1] if x < 0.4 else rng.choice(order)
+          if r not in rows:
+            rows.append(r)
+        qs = [q] * len(rows) if rng.random() < 0.7 else [rng.choice([q, st[order[min(len(order) - 1, rng.choice(dense))]], None]) for _ in rows]
+        run.step({"op": "move", "table": T, "rows": rows, "cols": {c: qs}, "single": rng.random() < 0.6})
+      else:
+        k = rng.choice([1, 1, 2, 4])
+        run.step({"op": "add", "table": T, "n": k, "cols": {c: [q] * k}, "single": rng.random() < 0.6})
+
+
+def fam_demo(run, nsteps=200, n0=5, target=4, move_every=4, col="manualSort", bulk=False):
+  """FIXED WITNESS (no randomness): rows are added right before row `target`; every `move_every`-th action instead
+  drags the row that is currently FIRST to right before `target`."""
+  T = "T"
+  run.step({"op": "table", "table": T, "pos_cols": [] if col == "manualSort" else [col]})
+  run.step({"op": "add", "table": T, "n": n0, "cols": {}})
+  for s in range(nsteps):
+    if run.dead:
+      return
+    order, st = run.order(T, col)
+    q = st[target]
+    if s % move_every == move_every - 1:
+      rows = [r for r in order[:2 if bulk else 1] if r != target]
+      run.step({"op": "move", "table": T, "rows": rows, "cols": {col: [q] * len(rows)}, "single": not bulk})
+    else:
+      run.step({"op": "add", "table": T, "n": 1, "cols": {col: [q]}, "single": True})
+
+
+def fam_trim_witness(run):
+  """FIXED WITNESS of the known finding TRIM_SIGNATURE: rows 1..4 at 5.75, 6.95, next(6.95), next(next(6.95));
+  row 2 is dragged to right before row 4."""
+  T = "T"
+  run.step({"op": "table", "table": T, "pos_cols": []})
+  run.step({"op": "add", "table": T, "n": 4, "cols": {}})
+  x = 6.95
+  run.step({"op": "seed", "table": T, "col": "manualSort", "rows": [1, 2, 3, 4], "vals": [5.75, x, nf(x), nf(x, 2)]})
+  run.step({"op": "move", "table": T, "rows": [2], "cols": {"manualSort": [nf(x, 2)]}, "single": True})
+
+
+def fam_moves_only(rng, run, nsteps):
+  """No row is ever added after the set-up: a fixed set of rows is shuffled by moves alone (UpdateRecord of
+  manualSort), always to right before / right after one of two anchor rows."""
+  T = "T"
+  run.step({"op": "table", "table": T, "pos_cols": []})
+  n0 = rng.randint(4, 12)
+  run.step({"op": "add", "table": T, "n": n0, "cols": {}})
+  order, st = run.order(T)
+  anchors = rng.sample(order, 2)
+  for _ in range(nsteps):
+    if run.dead:
+      return
+    order, st = run.order(T)
+    a = anchors[0] if rng.random() < 0.85 else anchors[1]
+    cand = [r for r in order if r != a]
+    r = cand[0] if rng.random() < 0.5 else rng.choice(cand)
+    q = st[a] if rng.random() < 0.8 else nf(st[a])
+    run.step({"op": "move", "table": T, "rows": [r], "cols": {"manualSort": [q]}, "single": True})
+
+
+def fam_fields(rng, run, nsteps):
+  """Another PositionNumber column: _grist_Views_section_field.parentPos (the fields of the view sections
+  created by AddTable) - fields are dragged before one another again and again."""
+  ncol = rng.randint(4, 8)
+  res = run.doc.apply([["AddTable", "F", [{"id": "c%d" % i, "type": "Text", "isFormula": False, "formula": ""}
+                                         for i in range(ncol)]]], record=False)
+  if not res.ok:
+    raise_infra("engine scenario: AddTable F rejected %r" % (res.error,))
+  run.steps.append({"op": "raw", "ua": ["AddTable", "F", [{"id": "c%d" % i, "type": "Text", "isFormula": False, "formula": ""}
+                                                          for i in range(ncol)]]})
+  MT = "_grist_Views_section_field"
+  run.step({"op": "watch", "table": MT, "col": "parentPos"})
+  order, st = run.order(MT, "parentPos")
+  target = rng.choice(order)
+  for _ in range(nsteps):
+    if run.dead:
+      return
+    order, st = run.order(MT, "parentPos")
+    k = rng.choice([1, 1, 1, 2, 3])
+    rows = [r for r in _pick_movers(rng, order, target, k)]
+    q = _aim(rng, st, target, order)
+    if isinstance(q, str):
+      q = None
+    run.step({"op": "move", "table": MT, "rows": rows, "cols": {"parentPos": [q] * len(rows)}, "single": rng.random() < 0.6})
+
+
+def run_engine_tie(run_ties, out):
+  """Model tie for the engine steps: Lean prepareInserts at Float on (sorted old positions, requests) + the glue
+  (index i of an adjustment = i-th row by old position; subjects get the new keys) must give the engine's table."""
+  if not run_ties:
+    return
+  ops = [enc_case(t["existing"], t["reqs"]) for t in run_ties]
+  model = run_driver(ops)
+  # the glue quirk that exists in the code (see MoveRun.dropped_update): an update whose computed cells all equal the
+  # current cells of the row is trimmed before the adjustments are applied
+  keeps = {}
+  for t, mo in zip(run_ties, model):
+    if t["move"] and "error" not in mo:
+      old = dict(zip(t["rows"], [bits(x) for x in t["existing"]]))
+      same = [old.get(s) == k for s, k in zip(t["subjects"], mo["new"])]
+      prev = keeps.get(t["group"])
+      keeps[t["group"]] = same if prev is None else [x and y for x, y in zip(prev, same)]
+  for t, mo in zip(run_ties, model):
+    out["evaluated"] += 1
+    out["counts"]["engine_tie_comparisons"] = out["counts"].get("engine_tie_comparisons", 0) + 1
+    if "error" in mo:
+      pred = None
+    else:
+      pred = {} if t["replace"] else dict(zip(t["rows"], [bits(x) for x in t["existing"]]))
+      for (i, k) in mo["adj"]:
+        if not t["replace"]:
+          pred[t["rows"][i]] = k
+      trimmed = keeps.get(t["group"]) if t["move"] else None
+      for j, (s, k) in enumerate(zip(t["subjects"], mo["new"])):
+        if trimmed and trimmed[j]:
+          out["counts"]["engine_tie_trimmed_updates"] = out["counts"].get("engine_tie_trimmed_updates", 0) + 1
+          continue
+        pred[s] = k
+    real = {r: bits(v) for r, v in t["after"].items()}
+    if pred != real:
+      out["n_engine_tie_mismatch"] = out.get("n_engine_tie_mismatch", 0) + 1
+      if out.get("engine_tie_mismatch") is None:
+        diff = sorted(r for r in set(real) | set(pred or {}) if (pred or {}).get(r) != real.get(r))
+        out["engine_tie_mismatch"] = {"where": t["where"], "step": t["nsteps"], "model": mo if pred is None else None,
+                                      "rows_differing": diff[:10], "engine_steps": t["steps"]}
+
+
+def engine_chunk(args):
+  """Engine scenarios of one worker: -> out dict (same shape as process_chunk's)."""
+  import random
+  from gx import common
+  common.setup_repo_path()
+  seed, n_crowd, crowd_steps, n_other, witnesses = args
+  rng = random.Random(seed)
+  out = {"counts": {}, "violations": [], "nontrivial": [], "samples": [], "evaluated": 0,
+         "engine_tie_mismatch": None, "n_engine_tie_mismatch": 0}
+  ties = []
+
+  def play(run, fam, *a, **kw):
+    try:
+      fam(*a, **kw)
+    except Exception:      # pylint: disable=broad-except
+      if not run.dead:     # after a violation the generator may trip over the broken state; that is not an error
+        raise
+    done(run)
+
+  def done(run):
+    out["counts"]["engine_scenarios"] = out["counts"].get("engine_scenarios", 0) + 1
+    out["counts"]["engine_scenarios_" + run.family] = out["counts"].get("engine_scenarios_" + run.family, 0) + 1
+    for t in run.ties:
+      t["steps"] = run.steps
+    ties.extend(run.ties)
+
+  with Observer() as ob:
+    if witnesses:
+      for kw in ({}, {"n0": 8, "target": 6, "move_every": 2, "nsteps": 150},
+                 {"col": "p", "nsteps": 150, "move_every": 3}, {"bulk": True, "nsteps": 150, "move_every": 3}):
+        run = MoveRun(ob, out, "fixed_witness")
+        play(run, fam_demo, run, **kw)
+      run = MoveRun(ob, out, "fixed_witness")
+      play(run, fam_trim_witness, run)
+    for i in range(n_crowd):
+      run = MoveRun(ob, out, "crowd")
+      play(run, fam_crowd, rng, run, crowd_steps, pos_cols=(["p"] if i % 3 == 1 else []), seed_chain=(i % 2 == 1),
+           p_move=rng.choice([0.3, 0.45, 0.7]))
+    for i in range(n_crowd):
+      run = MoveRun(ob, out, "dense_loaded_state")
+      play(run, fam_dense, rng, run, max(4, crowd_steps // 4), pos_cols=(["p"] if i % 3 == 1 else []))
+    for i in range(n_other):
+      run = MoveRun(ob, out, "moves_only")
+      play(run, fam_moves_only, rng, run, crowd_steps)
+      run = MoveRun(ob, out, "section_fields")
+      play(run, fam_fields, rng, run, crowd_steps)
+  run_engine_tie(ties, out)
+  return out
+
+
+def replay_engine(ck, r):
+  """Re-run recorded abstract engine steps, judging each one."""
+  out = {"counts": {}, "violations": [], "nontrivial": [], "samples": [], "evaluated": 0}
+  with Observer() as ob:
+    run = MoveRun(ob, out, r.get("family", "replay"))
+    for st in r["engine_steps"]:
+      if st["op"] == "raw":
+        res = run.doc.apply([st["ua"]], record=False)
+        run.steps.append(st)
+        continue
+      run.step(st)
+      if run.dead:
+        break
+  ck.evaluated(out["evaluated"])
+  for (sig, detail, rp) in out["violations"]:
+    print("replay: engine history of %d steps -> %s: %s" % (len(rp.get("engine_steps", run.steps)), sig, detail))
+    ck.violation(sig, detail, rp)
+  if not out["violations"]:
+    print("replay: engine history of %d steps -> property holds" % len(run.steps))
+  ck.nontrivial_case("replay-engine")
+  ck.lean(["GristProps.C20"])
+
+
+# ---------------------------------------------------------------------------------------------
 
 def chunks_for(ck):
   s = ck.seed
@@ -655,6 +1397,19 @@ def run(ck):
     "theorems are about lawful linear orders; Float's < on non-NaN values is assumed to be one (the driver runs the same generic code at Float)",
     "prepare_inserts_partial assumes the get_range laws: length = count, weakly increasing, start <= k < end (validated on the real get_range each run)",
     "totality of prepare_inserts is NOT proved; exceptions are searched for and reported",
+    "engine level (rows added / repositioned through AddRecord, BulkAddRecord, UpdateRecord, BulkUpdateRecord, ReplaceTableData, "
+    "RemoveRecord, undo on manualSort, a user PositionNumber column and _grist_Views_section_field.parentPos): judged by the DIRECT "
+    "ORACLE ONLY (judge_positions: E1 finite+distinct, E2 untouched rows keep their order, E3 each added/moved row sits where "
+    "requested relative to untouched rows' old positions, E4 request order among subjects, E5 unnamed columns / rejected actions / "
+    "removals / undo leave positions as they must); no theorem covers PositionColumn.prepare_new_values, "
+    "Engine.convert_action_values or useractions.doBulkUpdateRecord",
+    "engine tie: Lean prepareInserts at Float on (sorted positions before, requests) + a PYTHON re-implementation of the glue "
+    "(adjustment index i = i-th row by old position; subjects take the new keys; an update whose computed value equals the row's "
+    "current value is trimmed) must reproduce the engine's table bit-for-bit; the glue itself is not modelled in Lean",
+    "engine scope: one user action per bundle; requests are floats / ints / None / '' (no NaN, no alt-text); row ids distinct within "
+    "an action; <= ~160 rows per table; positions set directly through ApplyDocActions stand for a loaded document whose positions are "
+    "adjacent floats; an engine rejection is attributed to a recorded prepare_inserts finding only if prepare_inserts alone raises the "
+    "same exception on the same (positions, requests) and that finding's recorded condition holds there",
   ]
   ck.lean(["GristProps.C20"])
   chunks = chunks_for(ck)
@@ -681,6 +1436,7 @@ def run(ck):
     chk_dis = chk_dis or out["checker_disagree"]
   with Observer() as ob:
     prim = primitives(ck, ob)
+  eng_mism = engine_moves(ck)
   if not ck.has_impl_violation():
     if mism:
       ck.broken("correspondence relabeling.prepare_inserts vs Grist.Relabel.prepareInserts (bit-for-bit)",
@@ -691,7 +1447,44 @@ def run(ck):
     if chk_dis:
       ck.broken("validOutcome (Lean, proved sound) and the Python oracle disagree on an outcome",
                 "checker/oracle disagreement", chk_dis)
+    if eng_mism:
+      ck.broken("correspondence engine position columns vs Grist.Relabel.prepareInserts + index-to-row glue (bit-for-bit)",
+                "the table after an add / reposition differs from the model's prediction and the engine-level clauses E1-E5 "
+                "hold on all explored histories", eng_mism)
   engine_level(ck)
+
+
+def engine_chunks_for(ck):
+  s = ck.seed
+  if ck.tier == "quick":
+    return [("C20e/%s/0" % s, 10, 120, 2, True)]
+  return [("C20e/%s/%d" % (s, w), 16, 250, 4, w == 0) for w in range(16)]
+
+
+def engine_moves(ck):
+  """Rows added and REPOSITIONED through the engine in crowded neighbourhoods (see MoveRun / judge_positions)."""
+  chunks = engine_chunks_for(ck)
+  if len(chunks) == 1:
+    outs = [engine_chunk(chunks[0])]
+  else:
+    import multiprocessing
+    with multiprocessing.get_context("fork").Pool(min(len(chunks), os.cpu_count() or 2)) as pool:
+      outs = pool.map(engine_chunk, chunks)
+  mism = None
+  for out in outs:
+    ck.evaluated(out["evaluated"])
+    for k, v in out["counts"].items():
+      ck.count(k, v)
+    for nt in out["nontrivial"]:
+      ck.nontrivial_case(nt)
+    for sm in out["samples"]:
+      ck.sample(sm, limit=5)
+    for (sig, detail, rp) in out["violations"]:
+      ck.violation(sig, detail, rp)
+    if out["n_engine_tie_mismatch"]:
+      ck.count("engine_tie_disagreements", out["n_engine_tie_mismatch"])
+      mism = mism or out["engine_tie_mismatch"]
+  return mism
 
 
 def engine_level(ck):
@@ -706,6 +1499,8 @@ def engine_level(ck):
 
 def replay(ck, rp):
   r = rp["replay"]
+  if "engine_steps" in r:
+    return replay_engine(ck, r)
   if "input" in r:
     r = r["input"]
   ex = [float.fromhex(x) for x in r["existing"]]
